@@ -24,11 +24,17 @@ pub fn is_quoted_triple_id(id: u32) -> bool {
 /// Stores quoted triples (RDF-star) as u32 IDs with bidirectional lookup.
 /// Each quoted triple `<< s p o >>` gets a unique ID with the high bit set.
 /// Component IDs (s, p, o) may themselves be quoted triple IDs for nesting.
-#[derive(Debug, Default, Clone, PartialEq, Eq, Serialize, Deserialize)]
+#[derive(Debug, Clone, PartialEq, Eq, Serialize, Deserialize)]
 pub struct QuotedTripleStore {
     pub id_to_components: HashMap<u32, (u32, u32, u32)>,
     pub components_to_id: HashMap<(u32, u32, u32), u32>,
     pub next_qt_id: u32,
+}
+
+impl Default for QuotedTripleStore {
+    fn default() -> Self {
+        Self::new()
+    }
 }
 
 impl QuotedTripleStore {
